@@ -584,6 +584,30 @@ pub fn c11(tier: Tier) -> ! {
                 multi.push(("p2gg three sites (12 copies)".to_string(), st));
             }
         }
+        // regular polygons of 11, 12 and 17 sides (corners that are not round numbers), and a site
+        // whose second operation is a glide by 0.3 of a cell or a Cartesian third of a turn
+        {
+            let wg = get_wallpaper_group(wallpaper_enum("p2")).unwrap();
+            for n in [11usize, 12, 17].iter() {
+                if let Ok(st) = PackedState::from_group(LineShape::polygon(*n).unwrap(), &wg) {
+                    let st = AnyState::Poly(st);
+                    let nb = st.basis_values().len();
+                    st.set_basis_value(nb - 1, 1.25);
+                    multi.push((format!("p2 regular {}-gon", n), st));
+                }
+            }
+            let p1 = get_wallpaper_group(wallpaper_enum("p1")).unwrap();
+            let ident = WyckoffSite::new(&p1).unwrap();
+            for (label, second) in [("a glide by 0.3 of a cell", packing::Transform2::from(nalgebra::Matrix3::new(1., 0., 0.3, 0., -1., 0.5, 0., 0., 1.))), ("a third of a turn in Cartesian axes", packing::Transform2::new(2. * PI / 3., (0., 0.)))].iter() {
+                let mut site = ident.clone();
+                site.symmetries.push(second.clone());
+                let hard = PackedState::initialise(LineShape::polygon(4).unwrap(), Wallpaper::new(&p1), &[site.clone()]);
+                let st = AnyState::Poly(hard);
+                let nb = st.basis_values().len();
+                st.set_basis_value(nb - 3, 0.3125);
+                multi.push((format!("a site whose second operation is {}", label), st));
+            }
+        }
         // groups the crate does not ship, handed over as operation strings (their lattice
         // operations are not orthogonal matrices): hexagonal p3 and p3m1, square p4
         for (name, fam, ops) in [
@@ -618,6 +642,11 @@ pub fn c11(tier: Tier) -> ! {
             match back {
                 None => run.fail(None, &format!("{}: the written document does not read back", label), case),
                 Some(b) => {
+                    // (field for field, through the derived debug representation: doubles print with
+                    // the digits that identify them)
+                    if format!("{:?}", b) != format!("{:?}", st) {
+                        run.fail(None, &format!("{}: the object read back is not the object that was written (their debug representations differ)", label), case.clone());
+                    }
                     let same_n = b.total_shapes() == st.total_shapes() && b.relative().len() == st.relative().len();
                     let score_close = match (st.score(), b.score()) {
                         (Some(x), Some(y)) => (x - y).abs() <= 1e-9 * x.abs().max(y.abs()).max(1e-300),
